@@ -375,7 +375,7 @@ def make_scenarios(p, rng):
 
 def check_c16(prop, tier, replay=None):
     run = Run("C16", tier)
-    run.cov["rule"] = ("generated projects (core, limits, sub-slot) with 1-4 scenarios (flat, nested, siblings) and scenario-specific effort / start overrides; "
+    run.cov["rule"] = ("generated projects (core, limits, sub-slot, backward mode incl. one scenario whose effort override needs a far longer horizon) with 1-4 scenarios (flat, nested, siblings) and scenario-specific effort / start overrides; "
                        "every scenario's sub-trace is validated against the spec instance of its effective project, and its dates must equal those of the "
                        "single-scenario rendering of the effective project (own overrides, else the nearest ancestor scenario's); non-trivial = scenario with "
                        ">= 1 override or a limit in the project")
@@ -384,10 +384,22 @@ def check_c16(prop, tier, replay=None):
     bases = []
     for name in ("core_dialect", "limits_profile", "chain_subslot"):
         bases += getattr(gen, name)(rng, n)
+    # backward mode: tasks anchored at the project end; one scenario may need a horizon far beyond it (a huge effort override)
+    for name in ("alap_profile", "dags_alap", "alap_pack"):
+        for pid, p in getattr(gen, name)(rng, max(4, n // 2)):
+            big = [t for t in p.tasks if not t.kids and t.effort]
+            if big and rng.random() < 0.7:
+                p._c16_big = rng.choice(big)
+            bases.append((pid, p))
     jobs, pairs, payload = [], [], {}
     for pid, p in bases:
         q = make_scenarios(p, rng)
         ids = scenario_order(q.scenarios)
+        big = getattr(p, "_c16_big", None)
+        if big is not None and len(ids) > 1:
+            # the LAST scenario needs hundreds of hours more: the slot tables grow for all scenarios, nobody else may move
+            tb = next(t for t in q.tasks if q.full(t) == p.full(big))
+            tb.scen.setdefault(ids[-1], {})["effort"] = tb.effort + 3600 * rng.choice([400, 900])
         mid = "C16-%s" % pid
         jobs.append({"id": mid, "text": q.render(), "scenarios": "all",
                      "abstracts": {str(i): effective(q, sid).abstract() for i, sid in enumerate(ids)}})
